@@ -45,6 +45,8 @@ THOROUGH_MC = [
     ("twokeys", consts('{"p1", "s1"}', '{"p1"}', '{"s1"}', BOTH, BOTH, MaxDisc=1, TwoKeys="TRUE")),
     ("twopub", consts('{"p1", "p2", "s1"}', '{"p1", "p2"}', '{"s1", "p1"}', ST, ST, bodies='{"a", "b"}', MaxSeq=1, MaxDisc=1, MaxInject=1)),
     ("shrink", consts('{"p1", "p2", "s1"}', '{"p1", "p2"}', '{"s1"}', ST, ST, MaxSeq=1, MaxKill=1, MaxSrvRestart=1, StartMayFail="TRUE")),
+    ("grid2x2", consts('{"p1", "p2", "s1", "s2"}', '{"p1", "p2"}', '{"s1", "s2"}', ST, ST, MaxSeq=1, MaxSrvRestart=1, MaxDisc=1,
+                       LateSubscribe="TRUE")),
     ("pubsub_kill", consts('{"p1", "s1", "s2"}', '{"p1"}', '{"s1", "s2"}', ST, ST, MaxKill=1, MaxSrvRestart=1, MaxDisc=1,
                            MaxInject=1, StartMayFail="TRUE", LateSubscribe="TRUE")),
 ]
